@@ -89,10 +89,16 @@ def invoke(fn, names_, args, environment, pos):
                 for ch in argvalue.value:
                     values.append(ValueString(ch))
                     names.append(None)
-            else:
+            elif argvalue.isList():
                 for value in argvalue.value:
                     values.append(value)
                     names.append(None)
+            else:
+                raise CklRuntimeError(
+                    ValueString("ERROR"),
+                    f"Cannot spread {argvalue.type()}",
+                    pos,
+                )
         else:
             values.append(arg.evaluate(environment))
             names.append(names_[i])
@@ -1230,8 +1236,14 @@ class NodeList:
                     values = lst.getSortedKeys()
                 elif lst.isString():
                     values = [ValueString(ch) for ch in lst.value]
-                else:
+                elif lst.isList():
                     values = lst.value
+                else:
+                    raise CklRuntimeError(
+                        ValueString("ERROR"),
+                        f"Cannot spread {lst.type()}",
+                        self.pos,
+                    )
                 for value in values:
                     result.addItem(value)
             else:
